@@ -129,8 +129,136 @@ Case decode(Tape &t)
   return c;
 }
 
+// A clock that moves while the library computes (every reading costs 1-5 ms of virtual time), silent children
+// with deadlines, and a poll or wait entered within a few readings of the earliest deadline. Exact times
+// cannot be predicted then, bounds can: the call may not outlast both its timeout and the deadline (let alone
+// turn into a wait without end), may not report the timeout before the timeout has passed, and may not
+// report the deadline before any deadline could have passed.
+CaseResult run_ticking(Tape &t)
+{
+  CaseResult res;
+  vs_init();
+  vs_reset();
+  vt::World w;
+  static const int64_t epochs[] = { 1000000, 1, 1700000000000LL, 2147483000LL };
+  w.now = epochs[t.pick(4)];
+  w.install();
+  int tick = (int) t.range(1, 5);
+  size_t n = (size_t) t.range(1, 3);
+  int use_wait = t.chance(1, 3) ? (int) t.range(2, 3) : 0;  // 2 wait(DEADLINE), 3 wait(finite: the deadline plays no part)
+  int timeout = t.chance(1, 2) ? REPROC_INFINITE : (int) t.range(0, 4000);
+  if (use_wait == 2) timeout = REPROC_DEADLINE;
+  if (use_wait == 3 && timeout < 0) timeout = (int) t.range(0, 4000);
+  int offset = (int) t.range(0, 12 * (uint64_t) tick) - 4 * tick;
+  std::vector<int> deadline(n), interests(n);
+  for (size_t i = 0; i < n; i++) {
+    deadline[i] = (int) t.range(30, 3000);
+    interests[i] = (int) t.range(1, 15) & ~REPROC_EVENT_IN;
+    if (!interests[i]) interests[i] = REPROC_EVENT_EXIT;
+  }
+  std::vector<vt::VChild> kids(n);
+  std::map<int, hz::FdId> fds_before = hz::snapshot_self_fds();
+  std::vector<int64_t> d_lo(n), d_hi(n);
+  std::string err;
+  for (size_t i = 0; i < n && err.empty(); i++) {
+    reproc_options opt;
+    memset(&opt, 0, sizeof(opt));
+    opt.redirect.err.type = REPROC_REDIRECT_PIPE;
+    opt.deadline = deadline[i];
+    opt.stop = { { REPROC_STOP_KILL, 5000 }, { REPROC_STOP_NOOP, 0 }, { REPROC_STOP_NOOP, 0 } };
+    d_lo[i] = w.now + deadline[i];
+    w.tick = tick;
+    err = vt::start_puppet(w, fw::case_dir() + "/ctl" + std::to_string(i), opt, kids[i]);
+    w.tick = 0;
+    d_hi[i] = w.now + deadline[i];  // the deadline was fixed at some reading between the two
+    if (err.empty() && kids[i].start_result <= 0) err = "start returned " + std::to_string(kids[i].start_result);
+  }
+  {
+    std::vector<std::string> js;
+    for (size_t i = 0; i < n; i++) js.push_back(J().kv("deadline", deadline[i]).kv("interests", interests[i]).str());
+    res.describe = J().kv("scenario", "a clock that moves between two readings; the call is entered close to the earliest deadline")
+                       .raw("sources", jarr(js))
+                       .kv("call", use_wait ? "wait on source 0" : "poll")
+                       .kv("timeout", timeout)
+                       .kv("ms_per_clock_reading", tick)
+                       .kv("entered_before_earliest_deadline_ms", offset)
+                       .str();
+  }
+  res.hash = mix(mix(0x7c08, (uint64_t) tick * 64 + n * 8 + (uint64_t) use_wait), (uint64_t) (offset + 100) * 5000 + (uint64_t) (timeout + 2));
+  for (size_t i = 0; i < n; i++) res.hash = mix(res.hash, (uint64_t) deadline[i] * 16 + (uint64_t) interests[i]);
+  res.cls("ticking-clock");
+  auto teardown = [&]() {
+    w.tick = 0;
+    w.uninstall();
+    for (auto &kk : w.kids)
+      if (kk.alive) {
+        kill(kk.pid, SIGKILL);
+        hz::wait_dead(kk.pid, 5000);
+      }
+    for (auto &k : kids)
+      if (k.p) reproc_destroy(k.p);
+  };
+  if (!err.empty()) {
+    res.inconclusive("start: " + err);
+    teardown();
+    return res;
+  }
+  size_t first = 0;
+  if (!use_wait)
+    for (size_t i = 1; i < n; i++)
+      if (d_hi[i] < d_hi[first]) first = i;
+  int64_t lo = d_lo[first], hi = d_hi[first];
+  if (!use_wait)
+    for (size_t i = 0; i < n; i++) lo = std::min(lo, d_lo[i]);
+  if (hi - offset > w.now) w.advance_to(hi - offset);
+  int64_t t0 = w.now;
+  w.call_begins(100000 + (timeout > 0 ? timeout : 0) + 3000);
+  uint64_t reads0 = w.clock_reads;
+  std::vector<reproc_event_source> srcs(n);
+  for (size_t i = 0; i < n; i++) srcs[i] = { kids[i].p, interests[i], 0x7fff };
+  w.tick = tick;
+  int r = use_wait ? reproc_wait(kids[0].p, timeout) : reproc_poll(srcs.data(), n, timeout);
+  w.tick = 0;
+  int64_t t1 = w.now;
+  int64_t slack = (int64_t) (w.clock_reads - reads0) * tick;
+  int64_t left = hi > t0 ? hi - t0 : 0;
+  int64_t most = (use_wait == 3 ? timeout : timeout >= 0 ? std::min<int64_t>(timeout, left) : left) + slack;
+  std::string what = std::string(use_wait ? "wait" : "poll") + " with timeout " + std::to_string(timeout) + ", entered " + std::to_string(hi - t0) + " ms before the deadline with a clock that moves " + std::to_string(tick) + " ms per reading";
+  if (w.hang) res.fail("blocked-forever", what + ": blocked without bound (" + w.hang_what + " at +" + std::to_string(w.hang_at - t0) + " ms)");
+  else if (t1 - t0 > most) res.fail("wrong-duration", what + ": took " + std::to_string(t1 - t0) + " ms, at most " + std::to_string(most) + " allowed");
+  else if (use_wait) {
+    if (r != REPROC_ETIMEDOUT) res.fail("wait-result", what + ": returned " + std::to_string(r) + " for a child that is still running");
+    else if (timeout >= 0 && t1 - t0 < timeout) res.fail("returned-early", what + ": gave up after " + std::to_string(t1 - t0) + " ms, before the timeout");
+    else if (timeout < 0 && t1 < lo) res.fail("returned-early", what + ": gave up " + std::to_string(lo - t1) + " ms before the deadline could have passed");
+  } else if (r == 0) {
+    if (timeout < 0) res.fail("timeout-shape", what + ": reported a timeout");
+    else if (t1 - t0 < timeout) res.fail("returned-early", what + ": reported the timeout after " + std::to_string(t1 - t0) + " ms");
+  } else if (r > 0) {
+    int with = 0;
+    for (size_t i = 0; i < n; i++) {
+      if (!srcs[i].events) continue;
+      with++;
+      if (srcs[i].events != REPROC_EVENT_DEADLINE) res.fail("deadline-shape", what + ": source " + std::to_string(i) + " reports events " + std::to_string(srcs[i].events) + " although its child did nothing");
+      else if (t1 < d_lo[i]) res.fail("returned-early", what + ": source " + std::to_string(i) + " reports its deadline " + std::to_string(d_lo[i] - t1) + " ms before it could have passed");
+    }
+    if (with != r) res.fail("deadline-shape", what + ": returned " + std::to_string(r) + " with " + std::to_string(with) + " sources carrying events");
+  } else res.fail("poll-result", what + ": failed with " + std::to_string(r));
+  res.nontrivial = true;
+  if (left > 0 && left <= 4 * tick) res.cls("ticking-clock:entered-within-four-readings-of-deadline");
+  if (!w.trouble.empty()) {
+    res.kind = CaseResult::INCONCLUSIVE;
+    res.msg = "harness: " + w.trouble + (res.msg.empty() ? "" : " / " + res.msg);
+  }
+  teardown();
+  for (auto &k : kids) k.pup.reset();
+  std::string lsig, lp = hz::ledger_problems(fds_before, lsig);
+  if (!lp.empty() && res.kind == CaseResult::PASS) res.fail(lsig, "after destroy: " + lp);
+  return res;
+}
+
 CaseResult run_case(Tape &t, long)
 {
+  if (t.chance(1, 10)) return run_ticking(t);
   CaseResult res;
   Case c = decode(t);
   vs_init();
